@@ -1363,8 +1363,12 @@ pub(crate) fn materialize_constraint_kind(model: &mut Model, kind: &ConstraintKi
                             }
                             crate::variables::Var::VarF(interval) => {
                                 if let Val::ValF(f) = val {
-                                    interval.min = *f;
-                                    interval.max = *f;
+                                    // Only a value of the domain narrows it; for any other
+                                    // constant the posted equality fails the search
+                                    if *f >= interval.min && *f <= interval.max {
+                                        interval.min = *f;
+                                        interval.max = *f;
+                                    }
                                 }
                             }
                         }
@@ -1380,8 +1384,12 @@ pub(crate) fn materialize_constraint_kind(model: &mut Model, kind: &ConstraintKi
                             }
                             crate::variables::Var::VarF(interval) => {
                                 if let Val::ValF(f) = val {
-                                    interval.min = *f;
-                                    interval.max = *f;
+                                    // Only a value of the domain narrows it; for any other
+                                    // constant the posted equality fails the search
+                                    if *f >= interval.min && *f <= interval.max {
+                                        interval.min = *f;
+                                        interval.max = *f;
+                                    }
                                 }
                             }
                         }
